@@ -182,6 +182,13 @@ pub trait Subject {
     fn cmp2(&self, _a: &Value, _b: &Value) -> Option<CmpObs> {
         None
     }
+    /// the same observations on values built with `unsafe { new_unchecked(..) }` (declarations carrying the flag)
+    fn views_unchecked(&self, _raw: &Value) -> Option<Views> {
+        None
+    }
+    fn cmp2_unchecked(&self, _a: &Value, _b: &Value) -> Option<CmpObs> {
+        None
+    }
     /// sort the values built from raws (all must be valid) under catch_unwind
     fn sort(&self, _raws: &[Value]) -> Option<Result<Vec<Value>, String>> {
         None
